@@ -128,9 +128,43 @@ pub static REQUEST_BASE: AtomicU64 = AtomicU64::new(0);
 pub static GC_THREAD_SPAWNER: OnceLock<Box<dyn Fn(usize, Box<dyn FnOnce() + Send + 'static>) -> std::thread::JoinHandle<()> + Send + Sync>> = OnceLock::new();
 
 /// Hook (baton scenarios): called at the beginning of the named upcall on the thread that makes it
-/// ("stopped", "vm_roots", "weak_refs", "post_forwarding", "resume"); the argument is the
+/// ("stopped", "vm_roots", "weak_refs", "post_forwarding", "resume"; "resumed" at the end of
+/// resume_mutators); the argument is the
 /// worker's tls value.
 pub static UPCALL_HOOK: OnceLock<Box<dyn Fn(&'static str, usize) + Send + Sync>> = OnceLock::new();
+
+/// Request (C17 seam b): the next `process_weak_refs` call does nothing but fan out `racers` work
+/// packets into the VMRefClosure bucket, each holding a clone of the call's tracer context, that
+/// all trace the object `obj` (`ObjectTracer::trace_object`), and returns `true` (call me again
+/// when the closure is complete), so the binding's own weak-reference processing starts with the
+/// next call.  `on_fanout` runs before the packets are added; `done(racer, worker ordinal, result
+/// of trace_object)` after each racer's `with_tracer` has returned.
+pub struct TraceFanout {
+    pub obj: usize,
+    pub racers: usize,
+    pub on_fanout: Box<dyn Fn() + Send + Sync>,
+    pub done: std::sync::Arc<dyn Fn(usize, usize, usize) + Send + Sync>,
+}
+
+pub static TRACE_FANOUT: Mutex<Option<TraceFanout>> = Mutex::new(None);
+
+struct TraceRacePacket<C: ObjectTracerContext<VerifVM>> {
+    ctx: C,
+    obj: ObjectReference,
+    racer: usize,
+    done: std::sync::Arc<dyn Fn(usize, usize, usize) + Send + Sync>,
+}
+
+impl<C: ObjectTracerContext<VerifVM>> mmtk::scheduler::GCWork<VerifVM> for TraceRacePacket<C> {
+    fn do_work(&mut self, worker: &mut mmtk::scheduler::GCWorker<VerifVM>, _mmtk: &'static mmtk::MMTK<VerifVM>) {
+        let obj = self.obj;
+        let mut out = 0usize;
+        self.ctx.with_tracer(worker, |tracer| {
+            out = tracer.trace_object(obj).to_raw_address().as_usize();
+        });
+        (self.done)(self.racer, worker.ordinal, out);
+    }
+}
 
 fn upcall_hook(name: &'static str, tls: usize) {
     if let Some(h) = UPCALL_HOOK.get() {
@@ -153,6 +187,84 @@ fn baton_ids() -> (usize, usize, usize) {
 /// variables: the binding's own waits must then be logical, too.
 fn under_baton() -> bool {
     crate::baton::is_registered() && mmtk::util::verif::rt::controls(mmtk::util::verif::rt::Class::Sync)
+}
+
+// ---- several mutator threads under a baton instance (scenario `req2` of props/sched.rs)
+//
+// Without this mode the harness thread plays every mutator and `BLOCKED` says whether it sits in
+// `block_for_gc`.  In multi-mutator mode (baton scenarios only) every bound mutator has its own OS
+// thread and a state: Running, Blocked (inside `block_for_gc`) or Idle (at a harness-level
+// safepoint: it is not inside an MMTk call and will not touch the heap until it has passed
+// `multi_enter_running`).  `stop_all_mutators` returns once every mutator is Blocked or Idle; a
+// mutator leaves Blocked / Idle only when no collection is running or about to run.  All of it is
+// protected by the logical mutex `BATON_GC_MUTEX`.
+
+#[derive(Clone, Copy, Debug, PartialEq, Eq)]
+pub enum MutSt {
+    Running,
+    Blocked,
+    Idle,
+}
+
+pub struct Multi {
+    pub st: Vec<MutSt>,
+    /// collection count when the mutator last announced a request (`multi_note_request_base`)
+    pub base: Vec<u64>,
+    /// `stop_all_mutators` has found every mutator stopped; cleared by `resume_mutators`
+    pub stopping: bool,
+}
+
+pub static MULTI: Mutex<Option<Multi>> = Mutex::new(None);
+
+fn multi_active() -> bool {
+    MULTI.lock().unwrap_or_else(|p| p.into_inner()).is_some()
+}
+
+fn multi_with<R>(f: impl FnOnce(&mut Multi) -> R) -> R {
+    let mut g = MULTI.lock().unwrap_or_else(|p| p.into_inner());
+    f(g.as_mut().expect("multi-mutator mode is not active"))
+}
+
+/// Enter multi-mutator mode with `n` mutators: mutator 0 (the calling controller) Running, the
+/// others Idle.  Call at a quiescent point.
+pub fn multi_begin(n: usize) {
+    let c = with_state(|s| s.gc_count);
+    let mut st = vec![MutSt::Idle; n];
+    st[0] = MutSt::Running;
+    *MULTI.lock().unwrap_or_else(|p| p.into_inner()) = Some(Multi { st, base: vec![c; n], stopping: false });
+}
+
+pub fn multi_end() {
+    *MULTI.lock().unwrap_or_else(|p| p.into_inner()) = None;
+    BLOCKED.store(false, Ordering::SeqCst);
+}
+
+/// Mutator `m` announces that its next MMTk call may request a collection.
+pub fn multi_note_request_base(m: usize) {
+    let c = with_state(|s| s.gc_count);
+    multi_with(|x| x.base[m] = c);
+}
+
+/// Mutator `m` leaves its safepoint: waits (logically) while a collection is running or starting.
+pub fn multi_enter_running(m: usize) {
+    use mmtk::util::verif::rt;
+    let (mx, done_cv, _) = baton_ids();
+    rt::lock_acquire(mx, rt::LockMode::Mutex);
+    while multi_with(|x| x.stopping) || with_state(|s| s.gc_active) {
+        rt::cond_wait(done_cv, mx);
+    }
+    multi_with(|x| x.st[m] = MutSt::Running);
+    rt::lock_release(mx, rt::LockMode::Mutex);
+}
+
+/// Mutator `m` arrives at a harness-level safepoint.
+pub fn multi_enter_idle(m: usize) {
+    use mmtk::util::verif::rt;
+    let (mx, _, blocked_cv) = baton_ids();
+    rt::lock_acquire(mx, rt::LockMode::Mutex);
+    multi_with(|x| x.st[m] = MutSt::Idle);
+    rt::cond_notify(blocked_cv, true);
+    rt::lock_release(mx, rt::LockMode::Mutex);
 }
 
 /// Call before any MMTk call that may request a collection.
@@ -466,6 +578,19 @@ impl Collection<VerifVM> for VerifVM {
         // world is stopped once the harness thread has arrived there (a collection must not run
         // while the requesting mutator is still between the poll and `block_for_gc`, e.g. with a
         // page reservation pending in `Space::acquire`).
+        if under_baton() && multi_active() {
+            // multi-mutator mode: wait logically until every mutator is Blocked or Idle; from then
+            // on none of them leaves that state until resume_mutators (`stopping`)
+            use mmtk::util::verif::rt;
+            let (m, _, blocked_cv) = baton_ids();
+            rt::lock_acquire(m, rt::LockMode::Mutex);
+            while !multi_with(|x| x.st.iter().all(|s| *s != MutSt::Running)) {
+                rt::cond_wait(blocked_cv, m);
+            }
+            multi_with(|x| x.stopping = true);
+            BLOCKED.store(true, Ordering::SeqCst);
+            rt::lock_release(m, rt::LockMode::Mutex);
+        }
         if under_baton() {
             // wait logically until the mutator thread sits in block_for_gc
             use mmtk::util::verif::rt;
@@ -503,6 +628,10 @@ impl Collection<VerifVM> for VerifVM {
             use mmtk::util::verif::rt;
             rt::lock_acquire(baton_ids().0, rt::LockMode::Mutex);
         }
+        if baton && multi_active() {
+            multi_with(|x| x.stopping = false);
+            BLOCKED.store(false, Ordering::SeqCst);
+        }
         with_state(|s| {
             s.events.push(VmEvent::ResumeMutators);
             s.gc_active = false;
@@ -515,10 +644,39 @@ impl Collection<VerifVM> for VerifVM {
             rt::lock_release(m, rt::LockMode::Mutex);
             rt::cond_notify(done_cv, true);
         }
+        upcall_hook("resumed", tls_value(_tls.0));
     }
 
     fn block_for_gc(tls: VMMutatorThread) {
         let v = tls_value(tls.0);
+        if under_baton() && multi_active() {
+            // multi-mutator mode: this mutator is Blocked until a collection that stopped the world
+            // after its request has resumed the mutators and no further one is running or starting
+            use mmtk::util::verif::rt;
+            let me = v - MUTATOR_TLS_BASE;
+            let (m, done_cv, blocked_cv) = baton_ids();
+            rt::lock_acquire(m, rt::LockMode::Mutex);
+            with_state(|s| s.events.push(VmEvent::BlockForGcEnter(v)));
+            let base = multi_with(|x| {
+                x.st[me] = MutSt::Blocked;
+                x.base[me]
+            });
+            rt::cond_notify(blocked_cv, true);
+            while !(with_state(|s| s.gc_count > base && !s.gc_active) && !multi_with(|x| x.stopping)) {
+                rt::cond_wait(done_cv, m);
+            }
+            let c = with_state(|s| {
+                s.events.push(VmEvent::BlockForGcExit(v));
+                s.gc_count
+            });
+            multi_with(|x| {
+                x.st[me] = MutSt::Running;
+                x.base[me] = c;
+            });
+            REQUEST_BASE.store(c, Ordering::SeqCst);
+            rt::lock_release(m, rt::LockMode::Mutex);
+            return;
+        }
         if under_baton() {
             // the same protocol with logical waiting (a really blocked controller would stop the
             // whole instance)
@@ -667,6 +825,16 @@ impl Scanning<VerifVM> for VerifVM {
 
     fn process_weak_refs(worker: &mut mmtk::scheduler::GCWorker<VerifVM>, tracer_context: impl ObjectTracerContext<VerifVM>) -> bool {
         upcall_hook("weak_refs", tls_value(worker.tls.0));
+        let fanout = TRACE_FANOUT.lock().unwrap_or_else(|p| p.into_inner()).take();
+        if let Some(f) = fanout {
+            let obj = ObjectReference::from_raw_address(unsafe { Address::from_usize(f.obj) }).unwrap();
+            (f.on_fanout)();
+            for racer in 0..f.racers {
+                let p = TraceRacePacket { ctx: tracer_context.clone(), obj, racer, done: f.done.clone() };
+                mmtk::memory_manager::add_work_packet(mmtk(), mmtk::scheduler::WorkBucketStage::VMRefClosure, p);
+            }
+            return true;
+        }
         // Ephemeron semantics: a value is retained iff its key is reachable.  One round retains
         // the values of all entries whose key is currently reachable and that were not retained
         // before; if any value was newly retained another round is needed (it may have made more
